@@ -44,3 +44,19 @@ package cipher
 //@     invariant -1 <= rangeindex && rangeindex < len(c.implicitNonce)
 //@     invariant forall(t, len(c.implicitNonce) - 1 - rangeindex, len(c.implicitNonce), old(c.implicitNonce[t]) == 255 && c.implicitNonce[t] == 0)
 //@     invariant forall(t, 0, len(c.implicitNonce) - 1 - rangeindex, c.implicitNonce[t] == old(c.implicitNonce[t]))
+
+//@ // User hint (docs/protocol.md): the last 4 bytes of a nonce sent on behalf of user U are
+//@ // SHA-256(U || nonce[0:16])[0:4]; every other nonce byte is left as it was. The hashed
+//@ // input is exactly the whole user name followed by the first 16 nonce bytes - for every
+//@ // legal name length (1..64).
+//@ func (c *aeadBlockCipher) addUserHintToNonce(nonce []byte) (r []byte)
+//@   property C09
+//@   mode int
+//@   may_panic
+//@   requires c != nil
+//@   modifies nonce[..], ghost(lasthash)
+//@   assert_call Sum256: len(arg0) == len(c.ctx.UserName) + 16 && forall(i, 0, len(c.ctx.UserName), arg0[i] == c.ctx.UserName[i]) && forall(j, 0, 16, arg0[len(c.ctx.UserName) + j] == old(nonce[j]))
+//@   ensures len(r) == len(nonce) && baseof(r) == baseof(nonce)
+//@   ensures c.ctx.UserName == "" ==> forall(i, 0, len(nonce), nonce[i] == old(nonce[i]))
+//@   ensures c.ctx.UserName != "" ==> len(nonce) >= 20 && forall(i, 0, len(nonce) - 4, nonce[i] == old(nonce[i]))
+//@   ensures c.ctx.UserName != "" ==> forall(k, 0, 4, nonce[len(nonce) - 4 + k] == ghost(lasthash)[mathint(k)])
